@@ -403,6 +403,55 @@ func rulesC06(e *Engine, r *Report) {
 		}
 		r.Min("R06.8", "companion removals in package stage", n, 6)
 	}
+	// ---------------------------------------------------------------- R06.9
+	r.Rule("R06.9", "the durable record carries everything recovery needs: a fresh companion copies every field of the announced descriptor (all fields of sts.Partial except the part list) from the request, a reused one takes the request's time and predecessor; partialToFinal - the only way a companion becomes a file to validate/deliver after a restart - takes path/name, rename target, size, hash and predecessor from the companion; the legacy upgrade keeps hash, name, predecessor, size and source")
+	if fn := needFn(e, r, "R06.9", "stage.newLocalCompanion"); fn != nil {
+		if t := e.Type("sts", "Partial"); t != nil {
+			st := structOf(t)
+			for i := 0; i < st.NumFields(); i++ {
+				f := st.Field(i)
+				if !f.Exported() || f.Name() == "Parts" {
+					continue
+				}
+				vals := e.fieldStoreVals(fn, "sts.Partial", f.Name())
+				ok := false
+				for _, v := range vals {
+					if v == "p1."+f.Name() || v == "&p1."+f.Name() {
+						ok = true
+					}
+				}
+				r.Check(ok, "R06.9", "stage.newLocalCompanion: companion."+f.Name()+" ← request."+f.Name(), e.Pos(fn.Pos()),
+					"a fresh companion does not record "+f.Name()+" of the announced file: after a crash recovery rebuilds the file without it (wrong target name / hash / predecessor)", 1, vals...)
+			}
+		} else {
+			r.Unresolved("R06.9", "sts.Partial")
+		}
+	}
+	if fn := needFn(e, r, "R06.9", "stage.(*Stage).partialToFinal"); fn != nil {
+		want := map[string]string{"path": "call(filepath.Join)([p0.rootDir, p1.Name])", "name": "p1.Name", "renamed": "p1.Renamed", "size": "p1.Size", "hash": "p1.Hash", "prev": "p1.Prev"}
+		for _, k := range []string{"path", "name", "renamed", "size", "hash", "prev"} {
+			vals := e.fieldStoreVals(fn, "stage.finalFile", k)
+			r.Check(len(vals) == 1 && vals[0] == want[k], "R06.9", "stage.(*Stage).partialToFinal: file."+k+" ← "+want[k], e.Pos(fn.Pos()),
+				"the file rebuilt from a companion does not take "+k+" from it: "+strings.Join(vals, " | "), 1, vals...)
+		}
+	}
+	if fn := needFn(e, r, "R06.9", "stage.upgradeCompanion"); fn != nil {
+		want := map[string]string{"Hash": "p0.Hash", "Name": "p0.Path", "Prev": "p0.Prev", "Size": "p0.Size", "Source": "p0.Source"}
+		for _, k := range []string{"Hash", "Name", "Prev", "Size", "Source"} {
+			vals := e.fieldStoreVals(fn, "sts.Partial", k)
+			r.Check(len(vals) == 1 && vals[0] == want[k], "R06.9", "stage.upgradeCompanion: "+k+" ← "+want[k], e.Pos(fn.Pos()), "the legacy companion upgrade loses "+k, 1, vals...)
+		}
+	}
+	if fn := needFn(e, r, "R06.9", "stage.(*Stage).putFileAway"); fn != nil {
+		// the delivery name: renamed when present, else name - both from the file handed over
+		tp := e.findInstrs(fn, "call(filepath.Join)([p0.targetDir, phi(§)])", false)
+		ok := len(tp) == 1
+		if ok {
+			s2 := e.InstrStr(tp[0])
+			ok = strings.Contains(s2, "p1.renamed") && strings.Contains(s2, "p1.name")
+		}
+		r.Check(ok, "R06.9", "stage.(*Stage).putFileAway: target = <final>/(renamed | name) of the file", e.Pos(fn.Pos()), "the delivery name is not the file's rename target or name", 1)
+	}
 }
 
 // checkRecoverReadiness: Recover keeps readiness cleared across every step and
